@@ -463,9 +463,9 @@ Lemma InvA_set_nb m f L k : InvA m f L -> InvA (set_nb m k) f L.
 Proof. intros I. constructor; msimpl; apply I. Qed.
 
 Definition wf_op (op : hop) : Prop :=
-  match op with Set_ _ g b => g = true /\ length b = bs | Close => False | _ => True end.
+  match op with Set_ _ g b => g = true /\ length b = bs | Close => False | Open _ => False | _ => True end.
 
-Definition two_phase (op : hop) : bool := match op with Reopen | Pickle => true | _ => false end.
+Definition two_phase (op : hop) : bool := match op with Reopen | Pickle | Open _ => true | _ => false end.
 
 Lemma hstep_simple i m f op : two_phase op = false ->
   hstep current bs o i m f op =
@@ -670,7 +670,7 @@ Proof.
                r_err h = false /\ f_buf (r_file h) = [] /\ loads (f_disk (r_file h)) = Some (flat []))).
   { intros h L' Hm Hf HL Hx. split; [right; auto|]. split; [exact Hx|]. split; [discriminate|].
     intros _ Hi. rewrite Hm in Hi. discriminate. }
-  destruct op as [k g b| k | | | | | | k]; simpl in W.
+  destruct op as [k g b| k | | | | | | k | k]; simpl in W.
   - destruct W as [-> Hb]. rewrite hstep_simple by reflexivity. cbn [expand spec_step]. unfold st_set.
     cbn [fresh_mem m_nb m_rows length].
     destruct k as [|k].
@@ -700,6 +700,7 @@ Proof.
   - cbn [hstep fresh_mem m_closed]. unfold arr_flush, arr_write_header. cbn [fresh_mem m_closed m_pend app lexec].
     rewrite lstep_open, lstep_flush, lstep_seek_nil by reflexivity. simpl.
     split; [right; auto|]. split; [now rewrite take_commit_nil|]. split; [discriminate|]. intros _ Hf; discriminate.
+  - contradiction.
   - rewrite hstep_simple by reflexivity. apply NI; auto.
 Qed.
 
@@ -714,7 +715,178 @@ Proof.
   - contradiction.
   - now apply step_reopen.
   - now apply step_pickle.
+  - contradiction.
   - now apply step_read.
+Qed.
+
+(** ** prefix stores: [n_batches] may be smaller than the number of batches in the file ([Open k]).
+    Specification state [(P, n)]: [P] the batches physically in the file, [n = n_batches <= |P|]. *)
+
+Lemma uniform_firstn n L : uniform bs L -> uniform bs (firstn n L).
+Proof. unfold uniform. intros U. revert n. induction U; intros [|n]; simpl; constructor; auto. Qed.
+
+Lemma concat_firstn n L : uniform bs L -> n <= length L -> concat (firstn n L) = firstn (bs * n) (concat L).
+Proof.
+  intros U. revert n. induction U as [|x r Hx U IH]; intros n Hn.
+  - destruct n; simpl; now rewrite ?firstn_nil.
+  - destruct n as [|n]; simpl.
+    + now rewrite Nat.mul_0_r.
+    + replace (bs * S n) with (length x + bs * n) by lia. rewrite firstn_app_len. f_equal. apply IH. simpl in Hn. lia.
+Qed.
+
+Lemma slices_prefix n L : uniform bs L -> n <= length L ->
+  map (fun i => slice bs i (concat L)) (seq 0 n) = firstn n L.
+Proof.
+  intros U Hn. pose proof (f_equal (firstn n) (slices_concat bs L U)) as E. rewrite <- E, firstn_map. f_equal.
+  replace (length L) with (n + (length L - n)) by lia. rewrite seq_app.
+  rewrite firstn_app_le by (rewrite seq_length; lia). now rewrite firstn_all2 by (rewrite seq_length; lia).
+Qed.
+
+Definition PInv (m : mem) (f : file) (s : pstate) : Prop :=
+  (InvA m f (fst s) /\ m_nb m = snd s /\ snd s <= length (fst s)) \/ (m = fresh_mem /\ f = empty_file /\ s = ([], 0)).
+
+Definition wfp_op (s : pstate) (op : hop) : Prop :=
+  match op with
+  | Set_ _ g b => g = true /\ length b = bs
+  | Close => False
+  | Open k => k <= length (fst s)
+  | _ => True
+  end.
+
+(** [store.close()] followed by [NpyArray(filename)]: the header on disk declares the rows *)
+Lemma close_open_ok m f L i nb :
+  InvA m f L ->
+  exists l0 m1, arr_close m = (l0, m1) /\
+    read_header (f_disk (lexec o i (l0 ++ [LOpen false; LSeek]) f)) = Some (m_rows m) /\
+    InvA (opened bs (m_rows m) nb) (lexec o i (l0 ++ [LOpen false; LSeek]) f) L.
+Proof.
+  intros I. unfold arr_close, initialized. rewrite (ia_open _ _ _ I), (ia_init _ _ _ I). cbn [negb andb].
+  destruct (arr_write_header m) as [l m1] eqn:E.
+  destruct (sync_ok LClose m f L i l m1 lstep_close I E) as (B & P & Hd & D & Em & SA).
+  eexists _, _. split; [reflexivity|].
+  set (g := lexec o i (l ++ [LClose]) f) in *.
+  assert (F1 : lexec o i ((l ++ [LClose]) ++ [LOpen false; LSeek]) f = g).
+  { rewrite lexec_app. fold g. cbn [lexec]. rewrite lstep_open. now apply lstep_seek_nil. }
+  rewrite F1. unfold read_header. rewrite P, Hd. split; [reflexivity|].
+  apply opened_inv; auto; apply I.
+Qed.
+
+Lemma pstep_init m f P n i op :
+  InvA m f P -> m_nb m = n -> n <= length P -> wfp_op (P, n) op ->
+  PInv (r_mem (hstep current bs o i m f op)) (r_file (hstep current bs o i m f op)) (pspec_step (P, n) op).
+Proof.
+  intros I N Hn W. pose proof (ia_rows _ _ _ I) as R.
+  destruct op as [k g b| k | | | | | | k | k]; cbn [wfp_op fst] in W.
+  - (* store[k] = b *)
+    destruct W as [-> Hb]. rewrite hstep_simple by reflexivity. cbn [expand pspec_step]. unfold st_set. rewrite N, R.
+    destruct (n <? k) eqn:K1.
+    + apply Nat.ltb_lt in K1. replace (k =? n) with false by (symmetry; apply Nat.eqb_neq; lia). cbn [andb].
+      cbn [err r_mem r_file r_lops r_err lexec]. left. cbn [fst snd]. auto.
+    + apply Nat.ltb_ge in K1. destruct (k =? length P) eqn:K2.
+      * (* nothing hidden: append *)
+        apply Nat.eqb_eq in K2. assert (Ek : k = n) by lia.
+        replace (k =? n) with true by (symmetry; apply Nat.eqb_eq; lia).
+        replace (bs * k =? bs * length P) with true by (symmetry; apply Nat.eqb_eq; now rewrite K2).
+        cbn [andb]. destruct (append_ok m f P i b I Hb) as (l & m1 & E & I1 & N1 & _). rewrite E.
+        cbn [r_mem r_file r_lops r_err]. left. cbn [fst snd]. split; [now apply InvA_set_nb|].
+        split; [msimpl; lia|]. rewrite app_length. simpl. lia.
+      * (* a batch of the file at that place: it is overwritten, wherever the end of the file is *)
+        apply Nat.eqb_neq in K2. assert (Hk : k < length P) by lia.
+        replace (bs * k =? bs * length P) with false by (symmetry; apply Nat.eqb_neq; nia). rewrite Bool.andb_false_r.
+        replace (bs * length P <? bs * k + bs) with false by (symmetry; apply Nat.ltb_ge; nia).
+        destruct (setitem_ok m f P i k b I Hk Hb) as (l & m1 & E & I1 & N1 & _). rewrite E.
+        cbn [r_mem r_file r_lops r_err]. rewrite N1, N.
+        destruct (k =? n) eqn:K3; left; cbn [fst snd]; rewrite length_replace.
+        -- apply Nat.eqb_eq in K3. split; [now apply InvA_set_nb|]. split; [msimpl; lia | lia].
+        -- split; [exact I1|]. split; [lia | lia].
+  - (* del store[k] *)
+    rewrite hstep_simple by reflexivity. cbn [expand pspec_step]. unfold st_del. rewrite N.
+    destruct ((0 <? n) && (k =? n - 1)) eqn:C.
+    + apply andb_prop in C. destruct C as [C1 C2]. apply Nat.ltb_lt in C1. apply Nat.eqb_eq in C2.
+      replace (k <? n) with true by (symmetry; apply Nat.ltb_lt; lia).
+      replace (k =? n - 1) with true by (symmetry; apply Nat.eqb_eq; lia). cbn [negb].
+      destruct (truncate_ok (set_nb m (n - 1)) f P i (bs * k) (firstn k P)) as (l & m1 & E & I1 & N1 & _).
+      * now apply InvA_set_nb.
+      * rewrite firstn_length_le by lia. reflexivity.
+      * apply uniform_firstn, I.
+      * apply concat_firstn; [apply I | lia].
+      * left. msimpl. rewrite R. nia.
+      * rewrite E. cbn [r_mem r_file r_lops r_err]. left. cbn [fst snd]. split; [exact I1|].
+        rewrite firstn_length_le by lia. split; [rewrite N1; msimpl; lia | lia].
+    + assert (E : (if negb (k <? n) then err m else
+                   if negb (k =? n - 1) then err m
+                   else arr_truncate current (set_nb m (n - 1)) (bs * k)) = err m).
+      { destruct (k <? n) eqn:K1; [|reflexivity]. cbn [negb]. apply Nat.ltb_lt in K1.
+        destruct (k =? n - 1) eqn:K2; [|reflexivity].
+        replace (0 <? n) with true in C by (symmetry; apply Nat.ltb_lt; lia). discriminate. }
+      rewrite E. cbn [err r_mem r_file r_lops r_err lexec]. left. cbn [fst snd]. auto.
+  - (* clear *)
+    rewrite hstep_simple by reflexivity. cbn [expand pspec_step]. unfold st_clear.
+    assert (A1 : 0 = bs * length (@nil batch)) by (simpl; lia).
+    assert (A2 : uniform bs []) by constructor.
+    assert (A3 : concat (@nil batch) = firstn 0 (concat P)) by reflexivity.
+    assert (A4 : 0 < m_rows m \/ [] = P).
+    { destruct P; [now right|left]. rewrite R. simpl. nia. }
+    destruct (truncate_ok m f P i 0 [] I A1 A2 A3 A4) as (l & m1 & E & I1 & N1 & _). rewrite E.
+    cbn [r_mem r_file r_lops r_err]. left. cbn [fst snd]. split; [now apply InvA_set_nb|]. split; [reflexivity | simpl; lia].
+  - (* flush *)
+    rewrite hstep_simple by reflexivity. cbn [expand pspec_step].
+    destruct (flush_ok m f P i I) as (l & m1 & E & I1 & N1 & _). rewrite E.
+    cbn [r_mem r_file r_lops r_err]. left. cbn [fst snd]. split; [exact I1|]. split; [lia | exact Hn].
+  - contradiction.
+  - (* reopen: all the batches of the file become visible *)
+    cbn [hstep pspec_step]. destruct (close_open_ok m f P i None I) as (l0 & m1 & E & RH & IO). rewrite E, RH.
+    cbn [r_mem r_file]. left. cbn [fst snd]. split; [exact IO|]. split; [|lia].
+    simpl. rewrite R, Nat.mul_comm. apply Nat.div_mul. lia.
+  - (* pickle + unpickle: n_batches travels in the pickle, the array is read from the file *)
+    cbn [hstep pspec_step]. rewrite (ia_open _ _ _ I).
+    destruct (flush_ok m f P i I) as (l & m1 & E & I1 & N1 & P1 & MM & B & LD & _). rewrite E.
+    set (g := lexec o i l f) in *.
+    assert (F1 : lexec o i (l ++ [LOpen false; LSeek]) f = g).
+    { rewrite lexec_app. fold g. cbn [lexec]. rewrite lstep_open. now apply lstep_seek_nil. }
+    rewrite F1.
+    pose proof (ia_prefix _ _ _ I1) as Pf. pose proof (ia_hdr _ _ _ I1 P1) as Hd. pose proof (ia_data _ _ _ I1) as D.
+    rewrite (full_nobuf g B) in *.
+    unfold read_header. rewrite Pf, Hd.
+    unfold arr_close, initialized. rewrite (ia_open _ _ _ I1), (ia_init _ _ _ I1). cbn [negb andb].
+    unfold arr_write_header. rewrite P1. cbn [app r_mem r_file r_lops r_err lexec]. rewrite lstep_close, (flush_all_nil g B).
+    left. cbn [fst snd]. split; [apply opened_inv; auto; apply I1|]. split; [simpl; exact N | exact Hn].
+  - (* open with n_batches = k *)
+    cbn [hstep pspec_step]. destruct (close_open_ok m f P i (Some k) I) as (l0 & m1 & E & RH & IO). rewrite E, RH.
+    cbn [r_mem r_file]. left. cbn [fst snd]. split; [exact IO|]. split; [reflexivity | exact W].
+  - (* read *)
+    rewrite hstep_simple by reflexivity. cbn [expand pspec_step]. unfold st_read.
+    destruct (memmap_ok m f P i I) as (l & m1 & E & I1 & N1 & _). rewrite E.
+    cbn [r_mem r_file r_lops r_err]. left. cbn [fst snd]. split; [exact I1|]. split; [lia | exact Hn].
+Qed.
+
+Lemma pspec_fresh op : is_open op = false ->
+  pspec_step ([], 0) op = (spec_step [] op, length (spec_step [] op)).
+Proof.
+  destruct op as [k g b| k | | | | | | k | k]; intros IO; try reflexivity; try discriminate.
+  destruct k; reflexivity.
+Qed.
+
+Lemma pstep_fresh i op : wfp_op ([], 0) op ->
+  PInv (r_mem (hstep current bs o i fresh_mem empty_file op)) (r_file (hstep current bs o i fresh_mem empty_file op))
+       (pspec_step ([], 0) op).
+Proof.
+  intros W. destruct (is_open op) eqn:IO.
+  - destruct op; try discriminate. cbn [wfp_op fst length] in W. assert (k = 0) by lia. subst k.
+    cbn [hstep]. unfold arr_close. cbn [initialized fresh_mem m_init m_closed andb app lexec].
+    rewrite lstep_open, lstep_seek_nil by reflexivity. simpl. right. auto.
+  - assert (W' : wf_op op) by (destruct op; try exact W; discriminate).
+    destruct (step_fresh i op W') as (I1 & _). rewrite (pspec_fresh op IO).
+    destruct I1 as [[I1 N1]|(E1 & E2 & E3)].
+    + left. cbn [fst snd]. split; [exact I1|]. split; [exact N1 | lia].
+    + right. rewrite E3. auto.
+Qed.
+
+Lemma pstep_ok m f s i op : PInv m f s -> wfp_op s op ->
+  PInv (r_mem (hstep current bs o i m f op)) (r_file (hstep current bs o i m f op)) (pspec_step s op).
+Proof.
+  intros [(I & N & Hn)|(-> & -> & ->)] W; [|now apply pstep_fresh].
+  destruct s as [P n]. now apply pstep_init.
 Qed.
 
 End Store.
@@ -884,6 +1056,171 @@ Proof.
       unfold spec. rewrite fold_left_app. simpl. rewrite fold_left_app. simpl. fold (spec pre).
       now rewrite (spec_flush _ _ Fl).
     + destruct (FROM_H3 c Hc) as (t & Ht & Et). exists t. split; [simpl; lia | exact Et].
+Qed.
+
+(** * Prefix stores (histories with [Open k]) *)
+
+Fixpoint wfp (bs : nat) (s : pstate) (ops : list hop) : Prop :=
+  match ops with
+  | [] => True
+  | op :: r => wfp_op bs s op /\ wfp bs (pspec_step s op) r
+  end.
+
+Lemma run_pinv bs o ops : 0 < bs -> forall i m f s, PInv bs m f s -> wfp bs s ops ->
+  forall m' f' i', run current bs o i m f ops = (m', f', i') -> PInv bs m' f' (fold_left pspec_step ops s).
+Proof.
+  intros Hb. induction ops as [|op r IH]; intros i m f s I W m' f' i' E; simpl in *.
+  - now inversion E; subst.
+  - destruct W as [W1 W2]. pose proof (pstep_ok bs Hb o m f s i op I W1) as I1. eapply IH; eauto.
+Qed.
+
+Lemma view_pinv bs m f s : 0 < bs -> PInv bs m f s -> view bs m f = (snd s, Some (visible s)).
+Proof.
+  intros Hb [(I & N & Hn)|(-> & -> & ->)]; [|reflexivity].
+  unfold view, initialized, visible. rewrite (ia_init _ _ _ _ I), (ia_open _ _ _ _ I), N. simpl.
+  rewrite Bool.orb_true_r, (ia_data _ _ _ _ I). now rewrite (slices_prefix bs Hb _ _ (ia_uni _ _ _ _ I) Hn).
+Qed.
+
+(** (5) refinement for histories with [Open k]: the store reports the first [n_batches] batches of
+    the specification state, whatever the buffering *)
+Theorem prefix_refinement bs o ops : 0 < bs -> wfp bs ([], 0) ops ->
+  forall m f i, start current bs o ops = (m, f, i) ->
+  view bs m f = (snd (pspec ops), Some (visible (pspec ops))).
+Proof.
+  intros Hb W m f i E. apply view_pinv; [exact Hb|]. unfold start in E.
+  apply (run_pinv bs o ops Hb _ _ _ _ (or_intror (conj eq_refl (conj eq_refl eq_refl))) W _ _ _ E).
+Qed.
+
+Lemma firstn_replace_lt {A} n i (x : A) L : i < n -> firstn n (replace i x L) = replace i x (firstn n L).
+Proof.
+  revert n i. induction L as [|y r IH]; intros [|n] [|i] H; simpl; try reflexivity; try lia.
+  f_equal. apply IH. lia.
+Qed.
+
+Lemma firstn_replace_at {A} n (x : A) L : n < length L -> firstn (S n) (replace n x L) = firstn n L ++ [x].
+Proof.
+  revert n. induction L as [|y r IH]; intros [|n] H; simpl in *; try lia; [reflexivity|].
+  f_equal. apply IH. lia.
+Qed.
+
+(** between two [Reopen]/[Open] the visible batches evolve as the plain list of batches: in
+    particular a write at index [n_batches] of a prefix store is an append to the list, a
+    delete-last removes its last element, and the other batches stay *)
+Lemma visible_step s op : snd s <= length (fst s) -> is_open op = false -> op <> Reopen ->
+  visible (pspec_step s op) = spec_step (visible s) op.
+Proof.
+  destruct s as [P n]. cbn [fst snd]. intros Hn IO NR. unfold visible.
+  assert (LV : length (firstn n P) = n) by (apply firstn_length_le; lia).
+  destruct op as [k g b| k | | | | | | k | k]; cbn [pspec_step spec_step fst snd]; try reflexivity; try discriminate; try congruence.
+  - rewrite LV. destruct (n <? k) eqn:K1.
+    + apply Nat.ltb_lt in K1. cbn [fst snd].
+      replace (k =? n) with false by (symmetry; apply Nat.eqb_neq; lia).
+      replace (k <? n) with false by (symmetry; apply Nat.ltb_ge; lia). reflexivity.
+    + apply Nat.ltb_ge in K1. destruct (k =? length P) eqn:K2.
+      * apply Nat.eqb_eq in K2. assert (Ek : k = n) by lia.
+        replace (k =? n) with true by (symmetry; apply Nat.eqb_eq; lia). cbn [fst snd].
+        rewrite firstn_all2 by (rewrite app_length; simpl; lia). now rewrite firstn_all2 by lia.
+      * apply Nat.eqb_neq in K2. destruct (k =? n) eqn:K3; cbn [fst snd].
+        -- apply Nat.eqb_eq in K3. subst k. apply firstn_replace_at. lia.
+        -- apply Nat.eqb_neq in K3. replace (k <? n) with true by (symmetry; apply Nat.ltb_lt; lia).
+           apply firstn_replace_lt. lia.
+  - rewrite LV. destruct ((0 <? n) && (k =? n - 1)) eqn:C; cbn [fst snd]; [|reflexivity].
+    apply andb_prop in C. destruct C as [C1 C2]. apply Nat.ltb_lt in C1. apply Nat.eqb_eq in C2.
+    assert (En : n = S k) by lia. subst n. rewrite firstn_firstn, Nat.min_id. symmetry. apply removelast_firstn. lia.
+Qed.
+
+Lemma pspec_step_le bs s op : snd s <= length (fst s) -> wfp_op bs s op ->
+  snd (pspec_step s op) <= length (fst (pspec_step s op)).
+Proof.
+  destruct s as [P n]. cbn [fst snd]. intros Hn W.
+  destruct op as [k g b| k | | | | | | k | k]; cbn [pspec_step wfp_op fst snd] in *; try lia.
+  - destruct (n <? k) eqn:K1; cbn [fst snd]; [lia|]. apply Nat.ltb_ge in K1.
+    destruct (k =? length P) eqn:K2; cbn [fst snd].
+    + rewrite app_length. simpl. lia.
+    + apply Nat.eqb_neq in K2. rewrite length_replace. destruct (k =? n) eqn:K3; [apply Nat.eqb_eq in K3|]; lia.
+  - destruct ((0 <? n) && (k =? n - 1)) eqn:C; cbn [fst snd]; [|lia].
+    apply andb_prop in C. destruct C as [C1 C2]. apply Nat.ltb_lt in C1. apply Nat.eqb_eq in C2.
+    rewrite firstn_length_le; lia.
+Qed.
+
+(** without [Open] the pair specification is the list specification with nothing hidden *)
+Lemma pspec_full L op : is_open op = false ->
+  pspec_step (L, length L) op = (spec_step L op, length (spec_step L op)).
+Proof.
+  intros IO. destruct op as [k g b| k | | | | | | k | k]; cbn [pspec_step spec_step]; try reflexivity; try discriminate.
+  - destruct (length L <? k) eqn:K1.
+    + apply Nat.ltb_lt in K1. replace (k =? length L) with false by (symmetry; apply Nat.eqb_neq; lia).
+      replace (k <? length L) with false by (symmetry; apply Nat.ltb_ge; lia). reflexivity.
+    + apply Nat.ltb_ge in K1. destruct (k =? length L) eqn:K2.
+      * rewrite app_length. simpl. f_equal. lia.
+      * apply Nat.eqb_neq in K2. replace (k <? length L) with true by (symmetry; apply Nat.ltb_lt; lia).
+        now rewrite length_replace.
+  - destruct ((0 <? length L) && (k =? length L - 1)) eqn:C; [|reflexivity].
+    apply andb_prop in C. destruct C as [C1 C2]. apply Nat.ltb_lt in C1. apply Nat.eqb_eq in C2.
+    rewrite length_removelast, <- C2. f_equal.
+    rewrite <- (@removelast_firstn _ k L) by lia. now rewrite firstn_all2 by lia.
+Qed.
+
+Lemma pspec_no_open ops : forall L, has_open ops = false ->
+  fold_left pspec_step ops (L, length L) = (fold_left spec_step ops L, length (fold_left spec_step ops L)).
+Proof.
+  unfold has_open. induction ops as [|op r IH]; intros L H; [reflexivity|].
+  cbn [existsb] in H. apply Bool.orb_false_iff in H. destruct H as [H1 H2].
+  cbn [fold_left]. rewrite (pspec_full L op H1). now apply IH.
+Qed.
+
+Lemma wf_op_no_open bs op : wf_op bs op -> is_open op = false.
+Proof. destruct op; simpl; auto; contradiction. Qed.
+
+Lemma wf_no_open bs ops : wf bs ops -> has_open ops = false.
+Proof.
+  unfold has_open. induction 1 as [|op r W _ IH]; [reflexivity|]. cbn [existsb]. now rewrite (wf_op_no_open bs op W), IH.
+Qed.
+
+Lemma wf_op_wfp bs s op : wf_op bs op -> wfp_op bs s op.
+Proof. destruct op; simpl; auto; contradiction. Qed.
+
+Lemma wf_wfp bs ops : wf bs ops -> forall s, wfp bs s ops.
+Proof. induction 1 as [|op r W _ IH]; intros s; simpl; [exact I|]. split; [now apply wf_op_wfp | apply IH]. Qed.
+
+Lemma wfp_app bs a : forall s b, wfp bs s a -> wfp bs (fold_left pspec_step a s) b -> wfp bs s (a ++ b).
+Proof. induction a as [|op r IH]; intros s b Wa Wb; simpl in *; [exact Wb|]. destruct Wa. split; auto. Qed.
+
+Lemma visible_fold bs post : forall s, snd s <= length (fst s) ->
+  Forall (fun op => wf_op bs op /\ op <> Reopen) post ->
+  visible (fold_left pspec_step post s) = fold_left spec_step post (visible s) /\
+  snd (fold_left pspec_step post s) = length (fold_left spec_step post (visible s)).
+Proof.
+  induction post as [|op r IH]; intros s Hs W; simpl.
+  - split; [reflexivity|]. unfold visible. now rewrite firstn_length_le.
+  - inversion W as [|? ? [W1 W2] W3]; subst.
+    pose proof (pspec_step_le bs s op Hs (wf_op_wfp bs s op W1)) as Hs'.
+    destruct (IH _ Hs' W3) as [E1 E2].
+    now rewrite E1, E2, (visible_step s op Hs (wf_op_no_open bs op W1) W2).
+Qed.
+
+(** (6) the statement about prefix stores in terms of the plain list of batches: after any
+    well-formed history [pre], a store opened over the file with [n_batches = k] (any [k] up to the
+    number of batches written) reports, after any further operations [post] (appends = writes at
+    index [n_batches], overwrites, delete-last, clear, flush, pickle, reads), exactly what the
+    in-memory list started from the first [k] batches reports — under every buffer oracle *)
+Theorem prefix_store_refines_list bs o pre k post :
+  0 < bs -> wf bs pre -> k <= length (spec pre) ->
+  Forall (fun op => wf_op bs op /\ op <> Reopen) post ->
+  forall m f i, start current bs o (pre ++ Open k :: post) = (m, f, i) ->
+  view bs m f = (length (fold_left spec_step post (firstn k (spec pre))),
+                 Some (fold_left spec_step post (firstn k (spec pre)))).
+Proof.
+  intros Hb Wpre Hk Wpost m f i E.
+  assert (Ppre : pspec pre = (spec pre, length (spec pre))).
+  { unfold pspec, spec. apply (pspec_no_open pre []). now apply wf_no_open with bs. }
+  assert (W : wfp bs ([], 0) (pre ++ Open k :: post)).
+  { apply wfp_app; [now apply wf_wfp|]. fold (pspec pre). rewrite Ppre. simpl. split; [exact Hk|].
+    apply wf_wfp. eapply Forall_impl; [|exact Wpost]. now intros op [W1 _]. }
+  rewrite (prefix_refinement bs o _ Hb W m f i E).
+  unfold pspec. rewrite fold_left_app. fold (pspec pre). rewrite Ppre. simpl fold_left.
+  destruct (visible_fold bs post (spec pre, k) Hk Wpost) as [E1 E2].
+  unfold visible at 2 in E1. unfold visible in E2. cbn [fst snd] in E1, E2. now rewrite E1, E2.
 Qed.
 
 (** * Soundness of the decidable crash clause used on the implementation's outputs *)
